@@ -29,11 +29,21 @@ ASSUMPTIONS = ["single-threaded interleavings of generator steps only: the harne
                "a use-after-unmap is detected when it crashes the forked child or yields wrong values; there is no sanitizer under CPython",
                "'dropped' generators are finalised by CPython reference counting (+ gc.collect())"]
 EXHAUSTIVE = None
-MUST_HIT = ['mixed-access-modes', 'failing-access-while-shared', 'owner-finishes-before-borrower-advances', 'generator-dropped', 'write-while-two-generators-live', 'ctx-exit-before-generator-advance',
+MUST_HIT = ['write-next-to-generator-position', 'mixed-access-modes', 'failing-access-while-shared', 'owner-finishes-before-borrower-advances', 'generator-dropped', 'write-while-two-generators-live', 'ctx-exit-before-generator-advance',
             'generator-closed-early', 'nested-contexts', 'started-inside-context-advanced-after-exit']
 N = 131072      # int64 elements = 1 MB (well above malloc's mmap threshold, so an unmapped region is really gone); thorough: 4 MB
 GPARAMS = [dict(chunklen=25000), dict(chunklen=17500, stepsize=37500, startindex=250, endindex=125000),
            dict(chunklen=65536, stepsize=32768, include_remainder=False)]
+
+
+def psets():
+    """Generator parameter sets: 0 = one adjacent + two strided generators; 1 = three generators with adjacent frames (default
+    step) of different lengths; 2 = overlapping frames, and frames small enough (< 4096 bytes) to sit inside one stdio buffer."""
+    c = GPARAMS[0]['chunklen']
+    return [GPARAMS,
+            [dict(chunklen=c), dict(chunklen=c * 7 // 10), dict(chunklen=c // 50, startindex=c // 100, endindex=c * 2)],
+            [dict(chunklen=c * 6 // 5, stepsize=c * 2 // 5), dict(chunklen=300, stepsize=100, startindex=100, endindex=5000),
+             dict(chunklen=500, startindex=0, endindex=20000)]]
 
 
 def _scale(ctx):
@@ -142,7 +152,9 @@ def classify(actions, finish, out):
                     finished_first_owner = True
                     out.cls('ctx-exit-before-generator-advance') if any(u[0] == 'g' for u in users) else None
                 users.remove(('ctx', depth))
-        elif k == 'write':
+        elif k in ('write', 'wnear'):
+            if k == 'wnear':
+                out.cls('write-next-to-generator-position')
             if len(live) >= 2:
                 out.cls('write-while-two-generators-live')
             if live:
@@ -152,7 +164,7 @@ def classify(actions, finish, out):
     return nontrivial
 
 
-def child_run(path, actions, finish, hmode='r+'):
+def child_run(path, actions, finish, hmode='r+', pset=0):
     """Executed in the forked child. Returns None if fine, else a violation dict."""
     import darr
     a = darr.Array(path, accessmode=hmode)
@@ -192,7 +204,7 @@ def child_run(path, actions, finish, hmode='r+'):
         k = act[0]
         if k == 'start':
             g = act[1]
-            p = GPARAMS[g]
+            p = psets()[pset][g]
             gens[g] = a.iterchunks(**p)
             frames[g] = ref_frames(N, p['chunklen'], p.get('stepsize'), p.get('startindex'), p.get('endindex'), p.get('include_remainder', True))[0]
             pos[g] = 0
@@ -237,6 +249,13 @@ def child_run(path, actions, finish, hmode='r+'):
             sl = a[i:i + 5]
             if not np.array_equal(sl, model[i:i + 5]):
                 return {'kind': 'wrong-element', 'callsite': 'getitem', 'detail': f'a[{i}:{i + 5}]'}
+        elif k == 'wnear':
+            # a write next to where generator g is: act[2] elements before (negative) or after the end of its last returned frame
+            g = act[1]
+            if g in pos and 0 < pos[g] <= len(frames[g]):
+                i = min(max(frames[g][pos[g] - 1][1] + act[2], 0), N - 5)
+                a[i] = act[3]
+                model[i] = act[3]
         elif k == 'write':
             i = act[1] % N
             a[i] = act[2]
@@ -284,7 +303,7 @@ def execute(ctx, spec):
     hmode = spec.get('hmode', 'r+')
     if hmode != 'r+' or any(a[0] == 'enter' and len(a) > 1 for a in actions):
         # mixed access modes: whether a write is possible depends on who opened the shared map first; keep to reads
-        actions = [a for a in actions if a[0] != 'write']
+        actions = [a for a in actions if a[0] not in ('write', 'wnear')]
         out.cls('mixed-access-modes')
     if any(a[0] == 'badread' for a in actions):
         out.cls('failing-access-while-shared')
@@ -299,7 +318,7 @@ def execute(ctx, spec):
             code = 0
             try:
                 os.close(r)
-                v = child_run(path, actions, finish, hmode)
+                v = child_run(path, actions, finish, hmode, spec.get('pset', 0))
                 if v is not None:
                     os.write(w, json.dumps(v).encode())
                     code = 1
@@ -401,7 +420,10 @@ def st_schedule(draw):
     n = draw(st.integers(3, 25))
     acts = []
     for _ in range(n):
-        k = draw(st.sampled_from(['start', 'next', 'next', 'next', 'close', 'drop', 'enter', 'exit', 'read', 'write', 'badread']))
+        k = draw(st.sampled_from(['start', 'next', 'next', 'next', 'close', 'drop', 'enter', 'exit', 'read', 'write', 'badread', 'wnear']))
+        if k == 'wnear':
+            acts.append(['wnear', draw(st.integers(0, 2)), draw(st.sampled_from([-1, -2, -50, -150, -250, 0, 1, 10, 100, 400, 600, 3000])), draw(st.integers(-1000, 1000))])
+            continue
         if k in ('start', 'next', 'close', 'drop'):
             acts.append([k, draw(st.integers(0, 2))])
         elif k == 'read':
@@ -415,7 +437,25 @@ def st_schedule(draw):
             acts.append([k])
     order = draw(st.permutations([0, 1, 2, 'x', 'y']))
     finish = [['exit'] if o in ('x', 'y') else [draw(st.sampled_from(['exhaust', 'close', 'drop'])), o] for o in order]
-    return {'actions': acts, 'finish': finish, 'hmode': draw(st.sampled_from(['r+', 'r+', 'r']))}
+    return {'actions': acts, 'finish': finish, 'hmode': draw(st.sampled_from(['r+', 'r+', 'r'])), 'pset': draw(st.sampled_from([0, 1, 2]))}
+
+
+def fixed_specs():
+    """Hand-laid interleavings for the other parameter sets: generators with adjacent frames advanced in turn; writes just before
+    and just behind the end of the frame a generator has returned, then the next advance."""
+    for pset in (1, 2):
+        for order in ([0, 1, 0, 1, 2, 0, 1, 2, 2], [1, 1, 0, 2, 0, 1, 2, 0]):
+            acts = [['start', 0], ['start', 1], ['start', 2]] + [['next', g] for g in order]
+            yield {'actions': acts, 'finish': [['exhaust', 1], ['exhaust', 0], ['exhaust', 2]], 'pset': pset}
+            for g in (0, 1, 2):
+                for off in (-1, -50, -150, 0, 1, 100, 400, 600):
+                    w = [['start', g], ['next', g], ['wnear', g, off, -5], ['next', g], ['wnear', g, off, -6], ['next', g], ['next', g]]
+                    yield {'actions': w, 'finish': [['exhaust', g]], 'pset': pset}
+                    yield {'actions': [['enter']] + w + [['exit']], 'finish': [['close', g]], 'pset': pset}
+
+
+def task_fixed(ctx, col):
+    enum_search(ctx, col, fixed_specs(), lambda s: execute(ctx, s))
 
 
 def task_enum(ctx, col, shard, L):
@@ -431,7 +471,7 @@ def tasks(ctx):
     _scale(ctx)
     L = ctx.pick(5, 6)
     EXHAUSTIVE = f"every well-formed schedule of length <= {L} over 2 generators + 1 context containing at least one generator advance, x 2 finishing orders"
-    t = []
+    t = [(task_fixed, {})]
     for sh in range(NSHARDS):
         t.append((task_enum, dict(shard=sh, L=L)))
         t.append((task_random, dict(shard=sh, n=ctx.pick(120, 4000))))
